@@ -49,8 +49,15 @@ def collect_patterns(md=None):
         pats["rt:codespan_end[%d]" % n] = (r"(.*?[^`])" + "`" * n + r"(?!`)", re.S)
     from mistune.list_parser import _compile_list_item_pattern, _get_list_bullet
     for b in ".)*+-":
-        for w in (1, 2, 4):
-            pats["rt:list_item[%s%d]" % (b, w)] = (_compile_list_item_pattern(_get_list_bullet(b), w), re.M)
+        for w in (0, 1, 2, 3):
+            # as compiled inside _parse_list_item: (?P<list_item>(?<=\n)PATTERN); leading_width > 3 is capped at 3
+            pats["rt:list_item[%s%d]" % (b, w)] = (r"(?<=\n)" + _compile_list_item_pattern(_get_list_bullet(b), w), re.M)
+    # the list-item break patterns: specification[name] with its first "3" textually replaced by the leading width (< 3)
+    from mistune.block_parser import BlockParser
+    for name in ("thematic_break", "fenced_code", "atx_heading", "block_quote", "block_html", "list"):
+        spec = BlockParser.SPECIFICATION[name]
+        for w in (0, 1, 2, 3):
+            pats["rt:listbreak[%s,%d]" % (name, w)] = (r"(?<=\n)" + (spec.replace("3", str(w), 1) if w < 3 else spec), re.M)
     return pats
 
 
